@@ -21,7 +21,7 @@ CLAIMS = {
              "diffs them with the model; the statement itself (same greedy action, nobody else changes) is evaluated as oracle.",
         note=COMMON_NOTE + " Numerics of learn steps are opaque (value ids); that the walker reaches every mutable object is an assumption.",
         technique="Lean 4 proof (ownership invariant + frame lemma by induction over op histories) + alias/value correspondence on real agents",
-        ref="DESIGN.md §4 C01"),
+        ref="DESIGN.md §3 C01"),
     "C09": dict(
         text="Lean theorems (lean/Props/C09.lean) prove for every capacity and every sequence of batched additions that the "
              "ring-buffer model holds exactly the last min(cap,count) transitions at slots k mod cap, that len = min(cap,count), "
@@ -30,7 +30,7 @@ CLAIMS = {
              "op-sequence runs on every invocation, with an independent last-N oracle.",
         note=COMMON_NOTE + " Ids are encoded in every field of a transition, so decoded-id equality stands for 'fields belong together'.",
         technique="Lean 4 proof (induction over op sequences, refinement to last-N history) + model/implementation correspondence",
-        ref="DESIGN.md §4 C09"),
+        ref="DESIGN.md §3 C09"),
     "C10": dict(
         text="Lean theorems (lean/Props/C10.lean, 13) over Model/NStep.lean prove for every window, stream, n, discount and number "
              "of environments: the fused record is the discounted sum over the first k rows (k = 1 + index of the first row with "
@@ -42,7 +42,7 @@ CLAIMS = {
         note=COMMON_NOTE + " Not covered: train_off_policy passes only `done` (not truncation) and never clears the deque at env.reset(); "
              "index alignment needs equal capacities (witness theorem).",
         technique="Lean 4 proof (induction over streams, reuse of the C09 ring refinement) + model/implementation correspondence",
-        ref="DESIGN.md §4 C10"),
+        ref="DESIGN.md §3 C10"),
     "C11": dict(
         text="Lean theorems (lean/Props/C11.lean, 17) over Model/SegTree.lean prove for every capacity and every legal op sequence: "
              "the segment-tree invariant, root = fold of leaves (sum and min), operate(range) = fold over the range, the retrieve "
@@ -54,7 +54,7 @@ CLAIMS = {
         note=COMMON_NOTE + " Float rounding inside the tree is outside the theorems (exact rationals); one analysed float edge of a direct "
              "retrieve() call is a known finding. No statistical test of sampling frequencies.",
         technique="Lean 4 proof (tree invariant by induction over ops, retrieve spec by induction on depth) + exact dyadic correspondence",
-        ref="DESIGN.md §4 C11"),
+        ref="DESIGN.md §3 C11"),
 }
 
 
